@@ -35,7 +35,7 @@ RULE = (
     "distinct by construction"
 )
 BOUNDS = {
-    "quick": "6 lat x 6 lon x 4 alt = 144 stations; 8 az x 4 el x 3 ranges x 2 velocities = 192 targets; 3 dates; per target Range on 7 signal paths (1-4 legs: one-way, two-way, three-way to a second station, relayed open/closed) and Azimut/Elevation/Doppler on one of the 7 in turn; 6 mask tables x ~60 queries",
+    "quick": "6 lat x 6 lon x 4 alt = 144 stations; 8 az x 4 el x 3 ranges x 2 velocities = 192 targets; 3 dates; per target Range on 7 signal paths (1-4 legs: one-way, two-way, three-way to a second station, relayed open/closed) and Azimut/Elevation/Doppler on one of the 7 in turn; every 8th target also measured from the same state given as cartesian/spherical in ITRF, EME2000, the measuring station and a second station; 6 mask tables x ~60 queries; mask histories: all 30 ordered table pairs on two re-used stations (table re-assigned 3 times, 14 azimuths); 6 integer-valued sites x 10 argument types (tuple/list/ndarray, int/float/numpy-int/mixed)",
     "thorough": "10 lat x 8 lon x 4 alt = 320 stations; 12 az x 6 el x 4 ranges x 3 velocities = 864 targets; 3 dates; same masks, 2 stations",
 }
 ASSUMPTIONS = [
@@ -102,16 +102,56 @@ def wrap(a):
     return (a + math.pi) % (2 * math.pi) - math.pi
 
 
-def make_station(name, lat_d, lon_d, alt, mask=None):
+class CreateFailed(Exception):
+    pass
+
+
+ARGTYPES = ["tuple-float", "tuple-int", "list-int", "list-float", "ndarray-int", "ndarray-float", "tuple-npint", "tuple-int-int-float",
+            "tuple-float-int-int", "list-int-float-int"]
+INT_SITES = [(45, 10, 100), (-33, -71, 520), (0, 0, 0), (-89, 359, 9000), (12, -180, -400), (1, 1, 1)]
+
+
+def coords_arg(argtype, lat_d, lon_d, alt):
+    """The (lat, lon, alt) argument of create_station in the given Python representation (same numbers)."""
+    f, i = (float(lat_d), float(lon_d), float(alt)), None
+    if "int" in argtype:
+        i = (int(lat_d), int(lon_d), int(alt))
+        if i != f:
+            raise ValueError("integer argument types need integer-valued coordinates")
+    return {
+        "tuple-float": lambda: f,
+        "tuple-int": lambda: i,
+        "list-int": lambda: list(i),
+        "list-float": lambda: list(f),
+        "ndarray-int": lambda: np.array(i, dtype=np.int64),
+        "ndarray-float": lambda: np.array(f, dtype=float),
+        "tuple-npint": lambda: tuple(np.int32(v) for v in i),
+        "tuple-int-int-float": lambda: (i[0], i[1], f[2]),
+        "tuple-float-int-int": lambda: (f[0], i[1], i[2]),
+        "list-int-float-int": lambda: [i[0], f[1], i[2]],
+    }[argtype]()
+
+
+def make_station(name, lat_d, lon_d, alt, mask=None, argtype="tuple-float"):
     from mc import world
     from beyond.frames import create_station
 
     G = _world()
     world.restore(G["snap"])
     _G.pop("masksta_key", None)
-    # a second, distinct station (receiving end of three-way / relayed signal paths)
+    # a second, distinct station (receiving end of three-way / relayed signal paths; another topocentric frame)
     _G["stb"] = create_station("StaB", (-(lat_d * 0.5) + 7.0, lon_d + 40.0, 250.0))
-    return create_station(name, (lat_d, lon_d, alt), mask=mask)
+    arg = coords_arg(argtype, lat_d, lon_d, alt)
+    keep = (type(arg), [type(v) for v in arg], [float(v) for v in arg])
+    try:
+        sta = create_station(name, arg, mask=mask)
+    except Exception as e:  # the property requires a station for every coordinate triple
+        raise CreateFailed(f"create_station({arg!r}) raised {type(e).__name__}: {e}") from e
+    if (type(arg), [type(v) for v in arg], [float(v) for v in arg]) != keep:
+        _G["arg_mutated"] = (keep[2], [float(v) for v in arg])
+    else:
+        _G.pop("arg_mutated", None)
+    return sta
 
 
 # ---------------------------------------------------------------------------
@@ -132,9 +172,10 @@ def signal_paths(sta, stb):
 
 
 N_PATHS = 7
+VARIANT_EVERY = 8  # every 8th target of a (site, date) is also measured from 7 other (frame, form) representations
 
 
-def check_target(sta, site, dt, date, tg, t, with_measures=True, pidx=0):
+def check_target(sta, site, dt, date, tg, t, with_measures=True, pidx=0, argtype=None, variants=False):
     """site = (lat_d, lon_d, alt); tg = (az, el, range, (vE, vN, vU))."""
     from mc.ref import geodesy as gd
     from beyond.orbits import StateVector
@@ -143,7 +184,9 @@ def check_target(sta, site, dt, date, tg, t, with_measures=True, pidx=0):
     G = _world()
     lat, lon, alt = math.radians(site[0]), math.radians(site[1]), site[2]
     az, el, rng, vel = tg
-    case = dict(kind="target", site=list(site), date=list(dt), target=[az, el, rng, list(vel)], pidx=int(pidx))
+    case = dict(kind="target", site=list(site), date=list(dt), target=[az, el, rng, list(vel)], pidx=int(pidx), variants=bool(variants))
+    if argtype:
+        case["argtype"] = argtype
     s_ecef = gd.geodetic_to_ecef(lat, lon, alt, G["a"], G["f"])
     enu = gd.enu_from_az_el_range(az, el, rng)
     r_ecef = s_ecef + gd.enu_to_ecef(enu, lat, lon)
@@ -247,11 +290,48 @@ def check_target(sta, site, dt, date, tg, t, with_measures=True, pidx=0):
         if speed and abs(obs[N_PATHS + 2] - rr) > tol_rr:
             ok = False
             t.fail("measures/vs-reference", "measures equal the independent ENU quantities", case, rr, obs[N_PATHS + 2])
+    if variants and with_measures:
+        # the same physical state handed over in other frames / forms: every measure must come out the same
+        stb = _G["stb"]
+        perr_v = 8 * perr  # two more affine maps (through EME2000 / another station), same cancellation
+        verr_v = 8 * verr + 7.3e-5 * perr_v + 128 * EPS * 7.3e-5 * (float(np.linalg.norm(s_ecef)) + rng)
+        path = [sta, "sat", stb]
+        for fname, frame in (("ITRF", "ITRF"), ("EME2000", "EME2000"), ("own-station", sta), ("other-station", stb)):
+            for form in ("cartesian", "spherical"):
+                if fname == "ITRF" and form == "cartesian":
+                    continue
+                vcase = dict(case, given=[fname, form])
+                pe, ve = perr_v, verr_v
+                try:
+                    if form == "spherical":
+                        # phi = arcsin(z / r) in that frame: the representation itself is conditioned by 1 / cos(phi)
+                        xc = np.array(sv.copy(frame=frame), dtype=float)
+                        rr_f = float(np.linalg.norm(xc[:3]))
+                        cphi = max(math.hypot(xc[0], xc[1]) / rr_f, 1e-12)
+                        pe += 8 * EPS * rr_f / cphi
+                        # velocities: theta_dot = (x vy - y vx) / rho^2 and cos(phi) = cos(arcsin(z / r)) lose eps / cos^2(phi)
+                        ve += 16 * EPS * float(np.linalg.norm(xc[3:])) / (cphi * cphi) + 7.3e-5 * 8 * EPS * rr_f / cphi
+                    tr, te, ta = pe + 4 * EPS * rng, pe / rng + 8 * EPS / math.cos(el), pe / horiz + 8 * EPS
+                    trr = ve + speed * (pe / rng) + 4 * EPS * speed
+                    x = sv.copy(frame=frame, form=form)
+                    got = [float(Range(path, date, None).from_orbit(x).value), float(Azimut(path, date, None).from_orbit(x).value),
+                           float(Elevation(path, date, None).from_orbit(x).value), float(Doppler(path, date, None).from_orbit(x).value)]
+                except Exception as e:
+                    t.fail(f"measures/state-representation/raises/{fname}-{form}", "measures accept an orbit in any frame and form", vcase, "4 measures", repr(e))
+                    continue
+                t.trans(5)
+                errs = [abs(got[0] - 2 * rng) / (2 * tr), abs(wrap(-got[1] - az)) / ta, abs(got[2] - el) / te, (abs(got[3] - rr) / trr) if speed else (0.0 if abs(got[3]) <= 8 * ve + 1e-9 else 9.9)]
+                worst = max(errs)
+                if not t.margin("measures of the same state given in other frames/forms [error / tol]", worst, 1.0, vcase) or not (worst == worst):
+                    ok = False
+                    t.fail(f"measures/state-representation/{fname}-{form}", "a measure depends on the physical state only, not on the frame/form it is given in",
+                           vcase, [2 * rng, -az, el, rr], got, f"state given as {form} in {fname}: Range/Azimut/Elevation/Doppler errors / tol = {[round(e, 3) for e in errs]}")
+                t.outcome(("given", fname, form))
     t.outcome(("target", sig, round(math.degrees(el)), rng, bool(speed), ok))
     t.ev(("T", tuple(site), tuple(dt), az, el, rng, tuple(vel)))
 
 
-def check_origin(sta, site, dt, date, t):
+def check_origin(sta, site, dt, date, t, argtype=None):
     """Station origin: the geodetic point, at rest in ITRF, omega x r in inertial frames."""
     from mc.ref import geodesy as gd, earthrot as er
     from beyond.orbits import StateVector
@@ -259,6 +339,10 @@ def check_origin(sta, site, dt, date, t):
     G = _world()
     lat, lon, alt = math.radians(site[0]), math.radians(site[1]), site[2]
     case = dict(kind="origin", site=list(site), date=list(dt))
+    if argtype:
+        case["argtype"] = argtype
+    if _G.get("arg_mutated"):
+        t.fail("station/argument-mutated", "create_station leaves the caller's coordinates untouched", case, _G["arg_mutated"][0], _G["arg_mutated"][1])
     s_ecef = gd.geodetic_to_ecef(lat, lon, alt, G["a"], G["f"])
     o = StateVector(np.zeros(6), date, "cartesian", sta)
     try:
@@ -364,6 +448,49 @@ def check_mask(mi, q, t, site=(43.6, 1.44, 172.0)):
     t.ev(("M", mi, q, tuple(site)))
 
 
+MASK_HIST_Q = [0.0, 0.25, 0.5, 1.0, 1.4870110250000001, 2.0, 3.0, math.pi, 4.0, 5.5, 6.0, TWO_PI - 1e-9, -1.0, 7.5]
+
+
+def check_mask_history(i, j, t, site=(43.6, 1.44, 172.0)):
+    """One re-used station whose table is replaced: A(table i) and B(table j) queried alternately at the same azimuths,
+    then A.mask = table j, B.mask = table i, queried again, then back.  Oracle: interpolation of the CURRENT table."""
+    from mc import world
+    from mc.ref import geodesy as gd
+    from beyond.frames import create_station
+
+    G = _world()
+    case = dict(kind="mask-history", i=int(i), j=int(j), site=list(site))
+    world.restore(G["snap"])
+    _G.pop("masksta_key", None)
+    A = create_station("MaskA", site, mask=[list(MASKS[i][0]), list(MASKS[i][1])])
+    B = create_station("MaskB", (site[0] - 10.0, site[1] + 5.0, site[2]), mask=[list(MASKS[j][0]), list(MASKS[j][1])])
+    cur = {"A": i, "B": j}
+    n = 0
+    for step, (ta, tb) in enumerate(((i, j), (j, i), (i, j), (j, j))):
+        if step:
+            A.mask = np.array(MASKS[ta], dtype=float)  # the documented way to (re)define a mask: assign the 2 x n table
+            B.mask = np.array(MASKS[tb], dtype=float)
+            cur = {"A": ta, "B": tb}
+        for q in MASK_HIST_Q:
+            for nm, sta in (("A", A), ("B", B)):
+                tab = MASKS[cur[nm]]
+                exp = gd.mask_interp(tab[0], tab[1], q)
+                try:
+                    got = float(sta.get_mask(q))
+                except Exception as e:
+                    t.fail("mask/history/raises", "mask value exists at any azimuth", case, exp, repr(e))
+                    continue
+                n += 1
+                if abs(got - exp) > 1e-12:
+                    t.fail("mask/history/stale" if step else "mask/history/first-table", "the mask value is the interpolation of the station's current table", case, exp, got,
+                           f"step {step}: station {nm} holds table {cur[nm]}, azimuth {q!r}: got {got!r}, expected {exp!r}")
+    t.trans(n)
+    t.ev(("MH", i, j, tuple(site)))
+    t.states_add(4)
+    t.outcome(("mask-history", i, j))
+    world.restore(G["snap"])
+
+
 # ---------------------------------------------------------------------------
 
 
@@ -375,13 +502,20 @@ def targets(tier):
 def check_case(case, t):
     if case["kind"] == "mask":
         return check_mask(case["mask"], case["azimuth"], t, tuple(case["site"]))
+    if case["kind"] == "mask-history":
+        return check_mask_history(case["i"], case["j"], t, tuple(case["site"]))
     site = tuple(case["site"])
-    sta = make_station("Sta", *site)
+    try:
+        sta = make_station("Sta", *site, argtype=case.get("argtype") or "tuple-float")
+    except CreateFailed as e:
+        t.fail("station/create-raises", "a station can be created from any latitude, longitude, altitude triple", case, "a station", str(e))
+        return
     date = mk_date(case["date"])
     if case["kind"] == "origin":
-        return check_origin(sta, site, case["date"], date, t)
+        return check_origin(sta, site, case["date"], date, t, argtype=case.get("argtype"))
     az, el, rng, vel = case["target"]
-    check_target(sta, site, case["date"], date, (az, el, rng, tuple(vel)), t, pidx=case.get("pidx", 0))
+    check_target(sta, site, case["date"], date, (az, el, rng, tuple(vel)), t, pidx=case.get("pidx", 0), argtype=case.get("argtype"),
+                 variants=case.get("variants", False))
 
 
 def run_unit(p, t):
@@ -395,8 +529,33 @@ def run_unit(p, t):
         t.states_add(n)
         t.sample(dict(kind="mask", tables=len(p["masks"]), queries=n))
         return
+    if p["part"] == "mask-history":
+        for i, j in p["pairs"]:
+            check_mask_history(i, j, t)
+        return
     tg = targets(p["tier"])
     n = 0
+    if p["part"] == "argtypes":
+        sub = tg[:: max(1, len(tg) // 12)]
+        for site in p["sites"]:
+            site = tuple(site)
+            for at in ARGTYPES:
+                try:
+                    sta = make_station("Sta", *site, argtype=at)
+                except CreateFailed as e:
+                    t.fail("station/create-raises", "a station can be created from any latitude, longitude, altitude triple",
+                           dict(kind="origin", site=list(site), date=list(DATES[1]), argtype=at), "a station", str(e))
+                    continue
+                t.trans(1)
+                dt = DATES[1]
+                date = mk_date(dt)
+                check_origin(sta, site, dt, date, t, argtype=at)
+                for i, x in enumerate(sub):
+                    check_target(sta, site, dt, date, x, t, pidx=i, argtype=at, variants=(i % 4 == 0))
+                    n += 1
+                t.outcome(("argtype", at))
+        t.states_add(n)
+        return
     for site in p["sites"]:
         site = tuple(site)
         sta = make_station("Sta", *site)
@@ -406,7 +565,7 @@ def run_unit(p, t):
             check_origin(sta, site, dt, date, t)
             n += 1
             for i, x in enumerate(tg):
-                check_target(sta, site, dt, date, x, t, pidx=i)
+                check_target(sta, site, dt, date, x, t, pidx=i, variants=(i % VARIANT_EVERY == (len(dt) + int(abs(site[2]))) % VARIANT_EVERY))
                 n += 1
     t.states_add(n)
     if len(t.samples) < 1:
@@ -428,6 +587,11 @@ def units(tier, seed):
     msites = [[43.6, 1.44, 172.0]] if tier == "quick" else [[43.6, 1.44, 172.0], [-33.45, -70.66, 520.0]]
     for mi in range(len(MASKS)):
         u.append((cfg, dict(part="mask", tier=tier, sites=msites, masks=[mi])))
+    pairs = [[i, j] for i in range(len(MASKS)) for j in range(len(MASKS)) if i != j]
+    u.append((cfg, dict(part="mask-history", tier=tier, pairs=pairs[:15])))
+    u.append((cfg, dict(part="mask-history", tier=tier, pairs=pairs[15:])))
+    for k in range(0, len(INT_SITES), 2):
+        u.append((cfg, dict(part="argtypes", tier=tier, sites=[list(x) for x in INT_SITES[k : k + 2]])))
     return u
 
 
